@@ -92,7 +92,11 @@ impl<Key> AdmissionPolicy<Key>
             while let Ok(event) = receiver.recv() {
                 match event {
                     BufferEvent::Full(key_hashes) => {
+                        #[cfg(cached_verif)]
+                        let verif_batch_size = key_hashes.len() as i64;
                         { access_frequency.write().increment_access(key_hashes); }
+                        #[cfg(cached_verif)]
+                        crate::verif_rt::hook::event("batch_applied", "", &[verif_batch_size]);
                     }
                     BufferEvent::Shutdown => {
                         info!("Received Shutdown event in AdmissionPolicy, shutting it down");
@@ -201,7 +205,13 @@ impl<Key> AdmissionPolicy<Key>
 
         let mut sample = self.cache_weight.sample(EVICTION_SAMPLE_SIZE, frequency_counter);
         while space_available < key_description.weight {
+            #[cfg(cached_verif)]
+            let verif_sample = sample.verif_snapshot();
             if let Some(sampled_key) = sample.min_frequency_key() {
+                #[cfg(cached_verif)]
+                crate::verif_rt::hook::event("admission_victim", "", &crate::verif_rt::hook::victim_record(
+                    key_description.id, key_description.weight, incoming_key_access_frequency, space_available,
+                    (sampled_key.id, sampled_key.weight, sampled_key.estimated_frequency), &verif_sample));
                 if incoming_key_access_frequency < sampled_key.estimated_frequency {
                     debug!(
                         "Rejecting key with id {} and estimated frequency {}, given its frequency is less than the sampled key with frequency {}",
@@ -253,6 +263,21 @@ impl<Key> BufferConsumer for AdmissionPolicy<Key>
                 }
             }
         }
+    }
+}
+
+/// Read-only accessors used by the model-checking harness in /verif (never compiled without `--cfg cached_verif`).
+#[cfg(cached_verif)]
+impl<Key> AdmissionPolicy<Key>
+    where Key: Hash + Eq + Send + Sync + Clone + 'static, {
+    pub(crate) fn verif_cache_weight(&self) -> &CacheWeight<Key> { &self.cache_weight }
+    pub(crate) fn verif_total_increments(&self) -> u64 { self.access_frequency.read().verif_total_increments() }
+    pub(crate) fn verif_with_channel_capacity(
+        counters: TotalCounters,
+        cache_weight_config: CacheWeightConfig,
+        channel_capacity: usize,
+        stats_counter: Arc<ConcurrentStatsCounter>) -> Self {
+        Self::with_channel_capacity(counters, cache_weight_config, channel_capacity, stats_counter)
     }
 }
 
